@@ -1,3 +1,4 @@
+import Ebu.Props.C03
 import Ebu.Spec.Resume
 import Ebu.Proofs.Resume
 /-!
@@ -58,5 +59,12 @@ theorem publish_during_replay_lost :
     let s := run {} ops
     typed s.log 1 = [1, 9, 5] ∧ deliveredTo s 7 = [1, 5] ∧ isLive s 7 = true :=
   Ebu.Resume.publish_during_replay_lost 
+
+/-- the bus offset a live handler saves is written inside the `storeMu` critical section that
+also performs the append (CURRENT source), so it only ever increases; together with the
+per-subscription save mutex (fix c3a4d4d) the saved offset is monotone under concurrent publishers -/
+theorem bus_offset_serialised : Ebu.Locks.CallbacksOk Ebu.Generated.callbackFacts = true ∧
+    Ebu.Locks.Discipline Ebu.Generated.accessFacts = true :=
+  ⟨Ebu.Props.C03.facts_callbacks_lock_free, Ebu.Props.C03.facts_discipline⟩
 
 end Ebu.Props.C12
